@@ -104,6 +104,33 @@ def list_to_value_cases(ctx):
     ctx.broken('translation:generated _list_to_value differs from the running method', cases[i])
 
 
+def dedup_cases(ctx):
+  """The de-duplication block of doBulkUpdateRecord, executed by Python on sample row id lists, vs gen_dedup."""
+  from harness import k4env as k4, k4tr_specs
+  with open(os.path.join(core.GRIST, 'useractions.py')) as f:
+    tree = ast.parse(f.read())
+  fn = k4tr_specs.find_method(tree, 'UserActions', 'doBulkUpdateRecord')
+  blk = [s for s in fn.body if isinstance(s, ast.If) and 'len(set(row_ids))' in ast.unparse(s.test)][0]
+  code = compile(ast.fix_missing_locations(ast.Module(body=[blk], type_ignores=[])), '<de-duplication block>', 'exec')
+  r = ctx.rng
+  cases = []
+  for i in range(ctx.n(150, 2000)):
+    n = r.choice([0, 1, 2, 3, 4, 5, 7])
+    rows = [r.choice([1, 2, 3, 4]) if r.random() < 0.7 else r.randint(1, 9) for _ in range(n)]
+    vals = [r.choice([None, 0, 5, [1, 2], 'a', i2]) for i2 in range(n)]
+    env = {'row_ids': list(rows), 'columns': {'A': list(vals), 'B': list(range(n))}}
+    exec(code, env)      # pylint: disable=exec-used
+    if env['columns']['B'] != [j for j in range(n) if rows[j] not in rows[j + 1:]]:
+      ctx.broken('translation:de-duplication block', 'column B of %r became %r' % (rows, env['columns']['B']))
+    cases.append('(let r := gen_dedup %s %s in list_eqb Nat.eqb (fst r) %s && list_eqb cell_eqb (snd r) %s)' % (
+      k4.natlist(rows), core.coq_list([k4.enc_cell(v) for v in vals]), k4.natlist(env['row_ids']),
+      core.coq_list([k4.enc_cell(v) for v in env['columns']['A']])))
+    ctx.count(('gendedup', tuple(rows)), nontrivial=len(set(rows)) != len(rows), kind='gen:dedup')
+  bad = ctx.run_cases('gendedup', IMPORTS, 'fun c : bool => c', cases, shard=500)
+  for i in bad[:3]:
+    ctx.broken('translation:generated de-duplication differs from the running block', cases[i][:400])
+
+
 def cleanup_condition_cases(ctx):
   """The `continue` condition of doBulkRemoveRecord's clean-up loop, evaluated by Python on real column objects,
   vs gen_cleanup_skips on the same five facts about the column."""
